@@ -67,7 +67,7 @@ REACH = ["_node:Node.add_child", "_node:Node.insert_child", "_node:Node.remove_c
          "_edge:Edge._set_tail_node", "_tree:Tree._set_is_unrooted", "_tree:Tree._set_seed_node",
          "_tree:Tree.preorder_edge_iter", "_tree:Tree.postorder_edge_iter", "_tree:Tree.levelorder_edge_iter",
          "_node:Node.inorder_iter", "_node:Node.apply"]
-MIN_EVENTS = {"encode-basal-bifurcation-clause-checked": (10000, 100000), "op-applied": (20000, 400000), "walker-ok": (20000, 400000), "multiset-judged": (15000, 300000),
+MIN_EVENTS = {"label-matching-several-taxa-judged": (300, 1500), "encode-basal-bifurcation-clause-checked": (10000, 100000), "op-applied": (20000, 400000), "walker-ok": (20000, 400000), "multiset-judged": (15000, 300000),
               "bipartitions-judged": (3000, 60000), "documented-error-seen": (50, 500), "history-completed": (100, 3000),
               "traversals-judged": (4000, 100000), "traversal-compared": (400000, 9000000),
               "live-continuation-step": (20000, 600000), "op-on-leftovers-of-the-history": (10000, 300000),
@@ -1075,7 +1075,69 @@ def decorate_taxa(spec, rng):
     return spec
 
 
+def label_multimatch(ctx, rng):
+    """directed input class the label-keyed model of this module cannot host: ONE label that matches SEVERAL leaf taxa
+    (two Taxon objects with the same label, or labels that differ only in case under the default case-insensitive
+    namespace).  'The multiset of leaf taxa changes only by the taxa the operation was asked to remove': a *_with_labels
+    operation is asked for every taxon its labels match.  Judged by Taxon identity.  (seeded change C03e)"""
+    import dendropy
+    n = rng.randint(4, 9)
+    ns = dendropy.TaxonNamespace()
+    base = ["T%d" % i for i in range(n)]
+    kind = rng.choice(["case-variant", "same-label"])
+    twin_of = rng.randrange(n)
+    taxa = [ns.new_taxon(l) for l in base]
+    twin = ns.new_taxon(base[twin_of].lower() if kind == "case-variant" else base[twin_of])
+    taxa.append(twin)
+    spec = gen.random_spec(rng, n + 1, p_poly=rng.choice([0, 0.4]))
+    tree = dendropy.Tree(taxon_namespace=ns)
+    tree.is_rooted = rng.choice([True, False])
+    order = list(taxa)
+    rng.shuffle(order)
+    it = iter(order)
+
+    def build(s, nd):
+        for c in s[3]:
+            ch = nd.new_child()
+            if c[3]:
+                build(c, ch)
+            else:
+                ch.taxon = next(it)
+    build(spec, tree.seed_node)
+    asked = rng.choice([base[twin_of], twin.label, base[twin_of].lower()]) if kind == "case-variant" else base[twin_of]
+    extra = [l for l in rng.sample(base, rng.randint(0, 2)) if l != base[twin_of]]
+    labels = [asked] + extra
+    want = set(id(t) for t in taxa if t.label.lower() in set(l.lower() for l in labels))
+    op = rng.choice(["prune_taxa_with_labels", "retain_taxa_with_labels"])
+    kw = {"update_bipartitions": rng.random() < 0.5, "suppress_unifurcations": rng.random() < 0.5}
+    det = {"op": op, "labels": labels, "kind": kind, "kw": kw}
+    try:
+        with budget(50000 + 5000 * (2 * n + 2)):
+            getattr(tree, op)(labels, **kw)
+    except StepBudgetExceeded as e:
+        ctx.violation("%s|does-not-terminate|%s" % (op, e.where), str(e), det)
+        return
+    except Exception as e:
+        ctx.unexpected(op + "(label-matching-several-taxa)", e, det)
+        return
+    ctx.ev("label-matching-several-taxa-judged")
+    problems = arbor.check(tree)
+    if problems:
+        ctx.violation("%s|malformed-tree|label-matching-several-taxa" % op, str(problems[0]), det)
+        return
+    left = set(id(nd.taxon) for nd in tree.leaf_node_iter() if nd.taxon is not None)
+    allids = set(id(t) for t in taxa)
+    expect = (allids - want) if op.startswith("prune") else want
+    if left != expect:
+        ctx.violation("%s|leaf-multiset|label-matching-several-taxa|%s" % (op, kind),
+                      "leaf taxa left %s, the labels asked for match %s" % (
+                          sorted(t.label for t in taxa if id(t) in left), sorted(t.label for t in taxa if id(t) in want)), det)
+
+
 def history(ctx, case, rng):
+    if rng.random() < 0.5:
+        for _ in range(4):
+            label_multimatch(ctx, rng)
     n = rng.choice([2, 3, 5, 8, 12]) if ctx.tier == "quick" else rng.choice([2, 4, 8, 15, 25, 40])
     spec = gen.random_spec(rng, n, p_poly=rng.choice([0, 0.3, 0.6]), p_unary=rng.choice([0, 0.1]))
     gen.decorate_lengths(spec, rng, rng.choice(["none", "unit", "ints", "zeros", "float", "mixed_missing"]),
